@@ -64,7 +64,17 @@ def _phi(z):
         t = ex.fresh_real('Phi')   # Ackermannised: fresh constant per argument term + pairwise axioms
         ex.memo[key] = t
         _register("phi", zz, t)
+        if not is_sym(z):          # concrete argument: numeric enclosure of the true value (sound extra fact)
+            _enclose(ex, t, float(_real_norm().cdf(float(z))))
     return ex.memo[key]
+
+
+def _enclose(ex, t, f):
+    from fractions import Fraction as _F
+
+    fr = _F(f)
+    eps = abs(fr) * _F(1, 10 ** 9) + _F(1, 10 ** 12)
+    ex.assume(z3.And(t >= to_z3(fr - eps), t <= to_z3(fr + eps)), axiom=True)
 
 
 def _phiinv(p):
@@ -93,6 +103,8 @@ def _phiinv(p):
         t = ex.fresh_real('PhiInv')
         ex.memo[key] = t
         _register("phiinv", pz, t)
+        if not is_sym(p):
+            _enclose(ex, t, float(_real_norm().ppf(float(p))))
     return ex.memo[key]
 
 
